@@ -10,6 +10,8 @@
       seek w p o  t = base w p + o  (base: 0 | rpos for SFM_READ, wpos otherwise | frames.length);
                   t < 0: −1, nothing moves;  else t is returned and rpos / wpos / both := t
       truncate n  frames = upTo zero frames n;  rpos = wpos = n
+                  (promised only where the route has `ftruncate`; through SF_VIRTUAL_IO the command is a refused
+                   call — return value 1, nothing changes — and stands for no abstract operation: `ROp.toAOp`)
 
   The abstraction map `absOf : H → Store → AbsFile (List Byte)` (SfProofs/RdwrInv.lean) reads the frames off the
   store's data section — one frame = `bw` stored bytes, so the map is independent of the caller's sample type and of
@@ -50,7 +52,7 @@ theorem RwInv_initial_tight (ix : Nat) (s0 : Store) (fmt : Nat) (ch sr : Int) (h
     RwInv { h with canTruncate := b } s :=
   (RwInv_open ix s0 fmt ch sr h s ho ht).setTruncate b
 
-/-- every call of the alphabet preserves it (truncate: on routes where `ftruncate` works) -/
+/-- every call of the alphabet preserves it, on every route -/
 theorem RwInv_preserved (h : H) (s : Store) (op : ROp) (inv : RwInv h s) (hok : op.ok h) :
     RwInv (stepAny h s (op.toOp h)).1 (stepAny h s (op.toOp h)).2.1 :=
   (rdwr_step h s op inv hok).2.1
@@ -75,7 +77,12 @@ theorem RwInv_gives (h : H) (s : Store) (inv : RwInv h s) :
 /-- ONE STEP.  From any state satisfying the invariant, every call of the alphabet — read `k` frames (items or
     frames variant, any caller type), write a whole-frame buffer, seek (3 whence × {plain, SFM_READ, SFM_WRITE}, any
     offset), SFC_FILE_TRUNCATE to `n`, and the flag commands incl. SFC_UPDATE_HEADER_NOW / _AUTO —
-    answers what the abstract operation answers (`ROp.outOk`), keeps the invariant, and commutes with `absOf`. -/
+    answers what the abstract operation answers (`ROp.outOk`), keeps the invariant, and commutes with `absOf`.
+    FULL strength: every route.  `op.ok` only asks that a write buffer holds whole frames (an unaligned items call is an
+    invalid call, C09).  Since the TRUNC-VIO repair SFC_FILE_TRUNCATE needs no side condition: where the route has no
+    `ftruncate` (SF_VIRTUAL_IO) it is refused before anything is touched — answer 1, no error — and `ROp.toAOp` maps it
+    to no abstract operation; the abstract file of the statement promises truncation only where the route supports it.
+    (Before the repair the theorem needed `canTruncate` for truncate: `rdwr_refines_old_rule`.) -/
 theorem rdwr_refines (h : H) (s : Store) (op : ROp) (inv : RwInv h s) (hok : op.ok h) :
     op.outOk h (absOf h s) (stepAny h s (op.toOp h)).2.2 ∧
     RwInv (stepAny h s (op.toOp h)).1 (stepAny h s (op.toOp h)).2.1 ∧
@@ -221,6 +228,14 @@ theorem truncate_shortens (h : H) (s : Store) (inv : RwInv h s) (n : Nat) (hc : 
   · rw [f]; exact AbsFile.upTo_of_le _ _ _ hle
   · rw [f]; exact AbsFile.truncate_keeps _ _ _ _ hi hl
 
+/-- … and where the route has no `ftruncate` (SF_VIRTUAL_IO) the command is refused: it returns 1 with no error, the
+    handle is unchanged up to the cleared error field — frame count and both positions included — and the store, hence
+    the abstract file, is untouched (since the TRUNC-VIO repair) -/
+theorem truncate_refused_without_ftruncate (h : H) (s : Store) (inv : RwInv h s) (n : Nat) (hc : h.canTruncate = false) :
+    let r := stepAny h s ((ROp.truncate n).toOp h)
+    r.2.2.ret = 1 ∧ r.2.2.err = 0 ∧ r.1 = { h with error := 0 } ∧ r.2.1 = s ∧ absOf r.1 r.2.1 = absOf h s :=
+  truncate_refused_effect h s n inv.gives.1 hc
+
 /-- `untouched_preserved`: a write changes no frame outside `wpos … wpos+k` -/
 theorem untouched_preserved (h : H) (s : Store) (inv : RwInv h s) (ty : Ty) (fc : Bool) (data : List Int)
     (hmod : data.length % h.ch = 0) (hpos : 0 < data.length) (i : Nat) (hi : i < (absOf h s).frames.length)
@@ -319,35 +334,41 @@ theorem rdwr_session (ix : Nat) (s0 : Store) (fmt : Nat) (ch sr : Int) (h : H) (
 
 /-! ## where the side conditions are needed (full statements, witnesses, what was proved instead) -/
 
-/-- the one-step theorem without the `ftruncate` side condition on truncate -/
-def rdwr_refines_full : Prop :=
-  ∀ (h : H) (s : Store) (op : ROp), RwInv h s → (∀ ty fc data, op = .write ty fc data → data.length % h.ch = 0) →
-    RwInv (stepAny h s (op.toOp h)).1 (stepAny h s (op.toOp h)).2.1 ∧
-    absOf (stepAny h s (op.toOp h)).1 (stepAny h s (op.toOp h)).2.1 = (absOf h s).stepOpt (zeroFrame h.bw) (op.toAOp h)
-
 def tS : Store := { bytes := [1, 0, 2, 0], pos := 0 }
+/-- a 2-frame 16-bit mono RAW file opened RDWR through virtual I/O (`canTruncate = false`) -/
 def tH : H := { store := 0, mode := .rw, container := .raw, enc := .pcm ⟨16, false, false⟩, big := false, ch := 1,
                 sr := 8000, fmtWord := 0x040002, frames := 2, wpos := 2, lastOp := .rw, haveWritten := true,
                 datalength := 4, filelength := 4 }
 theorem tH_opened : openHandle 0 tS .rw 0x040002 1 8000 = .ok tH tS := by rfl
+theorem tH_inv : RwInv tH tS := RwInv_initial_raw 0 tS 0x040002 1 8000 tH tS tH_opened rfl (by decide) false
 
-/-- witness (virtual I/O, `canTruncate = false`): SFC_FILE_TRUNCATE to 3 frames on a 2-frame file returns −1 with
-    SFE_SYSTEM, but `sf.frames` is 3 afterwards while the store still holds 2 frames — C09
-    `truncate_minus_one_sets_frames` is the same staging defect.  Real library, same script: `ret=-1 err=2`, then
-    `frames=3`, store 4 bytes. -/
-theorem rdwr_refines_full_fails : ¬ rdwr_refines_full := by
-  intro hfull
-  have inv : RwInv tH tS := RwInv_initial_raw 0 tS 0x040002 1 8000 tH tS tH_opened rfl (by decide) false
-  have i' := (hfull tH tS (.truncate 3) inv (fun _ _ _ hc => by cases hc)).1
+/-- NEW RULE on the old witness: SFC_FILE_TRUNCATE to 3 frames through virtual I/O is refused — 1, no error, handle and
+    store as they were, invariant kept (an instance of `rdwr_refines` / `truncate_refused_without_ftruncate`).
+    Repaired library, same script: `ret=1 err=0`, then `frames=2`, store 4 bytes. -/
+theorem truncate_vio_witness_new_rule :
+    stepAny tH tS ((ROp.truncate 3).toOp tH) = ({ tH with error := 0 }, tS, { ret := 1 }) ∧
+    RwInv (stepAny tH tS ((ROp.truncate 3).toOp tH)).1 (stepAny tH tS ((ROp.truncate 3).toOp tH)).2.1 :=
+  ⟨by rfl, RwInv_preserved tH tS (.truncate 3) tH_inv trivial⟩
+
+/-- OLD RULE (before the TRUNC-VIO repair, `stepTruncateOld`): the same call returned −1 with SFE_SYSTEM, but `sf.frames`
+    was 3 afterwards while the store still held 2 frames, so the invariant was lost and the one-step theorem had to
+    exclude truncate on routes without `ftruncate` (it was `rdwr_refines_partial`; C09
+    `truncate_minus_one_sets_frames_old_rule` is the same staging defect).  Unrepaired library, same script:
+    `ret=-1 err=2`, then `frames=3`, store 4 bytes. -/
+theorem rdwr_refines_old_rule :
+    (stepTruncateOld tH tS 3).2.2.ret = -1 ∧ (stepTruncateOld tH tS 3).2.2.err = 2 ∧
+    (stepTruncateOld tH tS 3).1.frames = 3 ∧ (stepTruncateOld tH tS 3).2.1.bytes.length = 4 ∧
+    ¬ RwInv (stepTruncateOld tH tS 3).1 (stepTruncateOld tH tS 3).2.1 := by
+  refine ⟨by decide, by decide, by decide, by decide, ?_⟩
+  intro i'
   have := i'.gives.2.2.2.2.2.2.2.2.2.1
   revert this
   decide
 
-/-- what holds: `rdwr_refines` — every call except SFC_FILE_TRUNCATE on a route without `ftruncate` -/
-theorem rdwr_refines_partial (h : H) (s : Store) (op : ROp) (inv : RwInv h s) (hok : op.ok h) :
-    RwInv (stepAny h s (op.toOp h)).1 (stepAny h s (op.toOp h)).2.1 ∧
-    absOf (stepAny h s (op.toOp h)).1 (stepAny h s (op.toOp h)).2.1 = (absOf h s).stepOpt (zeroFrame h.bw) (op.toAOp h) :=
-  (rdwr_step h s op inv hok).2
+/-- on routes where `ftruncate` works the repair changed nothing -/
+theorem truncate_rule_unchanged_with_ftruncate (h : H) (s : Store) (f : Int) (hc : h.canTruncate = true) :
+    stepTruncate h s f = stepTruncateOld h s f :=
+  stepTruncate_eq_old h s f hc
 
 /-- "every successful RDWR open establishes the invariant" -/
 def RwInv_initial_full : Prop :=
@@ -429,6 +450,11 @@ example :
     st.1.rpos = 2 ∧ st.1.wpos = 1 ∧ st.1.frames = 3 ∧
     (runR st.1 st.2 [.seek .cur .both 0]).1.rpos = 1 ∧ (runR st.1 st.2 [.seek .cur .both 0]).1.wpos = 1 ∧
     (stepAny st.1 st.2 ((ROp.seek .cur .rd (-5)).toOp eH)).2.2.ret = -1 := by decide
+
+/-- truncate_refused_without_ftruncate: the same handle on virtual I/O: 3 frames stay 3 frames, positions stay -/
+example :
+    let st := runR { eH with canTruncate := false } {} [.write .s16 true [1, 2, 3, 4, 5, 6], .seek .set .rd 1, .truncate 1]
+    st.1.frames = 3 ∧ st.1.rpos = 1 ∧ st.1.wpos = 3 ∧ st.2.bytes.length = 12 := by decide
 
 /-- truncate_shortens / reopen_sees_final: 3 frames, truncate to 1, close, re-open read-only: 1 frame, the first one -/
 example :
